@@ -26,7 +26,7 @@ ASSUME = [
     "3-5 environment stimuli per behaviour",
 ]
 
-MC_LINES = ["SPECIFICATION Spec", "INVARIANTS MonOK QuiesceOK RedialOK ServicesOK NoKf", "PROPERTY ProtocolsBeforeManager",
+MC_LINES = ["SPECIFICATION Spec", "INVARIANTS MonOK QuiesceOK RedialOK ServicesOK NoKf ClosedOnceRaw", "PROPERTY ProtocolsBeforeManager",
             "VIEW View", "CHECK_DEADLOCK FALSE"]
 BASE = {"Sim": True, "Q": {"q1", "q2"}, "QD": {"q3"}, "MaxCid": 2, "Cap": 1, "MCap": 1, "MaxStim": 3, "MaxSub": 1,
         "Fixed": "<- AllFix", "Mutant": ""}
@@ -79,7 +79,7 @@ def to_steps(stims, transport="tcp"):
     end = [{"op": "cut"}] if proxy else [{"op": "force_close", "n": "B", "q": "q1"}]
     for i, s in enumerate(stims):
         a = s["a"]
-        if i in skip or a == "outcome":
+        if i in skip or a in ("outcome", "idle"):
             continue
         if a == "connect":
             cid += 1
@@ -117,7 +117,7 @@ def to_steps(stims, transport="tcp"):
             steps += end + [{"op": "quiesce"}]
         elif a == "redial":
             steps.append({"op": "redial", "n": "A", "expect": True})
-    real = [s for s in stims if s["a"] != "outcome"]
+    real = [s for s in stims if s["a"] not in ("outcome", "idle")]
     if not real or real[-1]["a"] not in ("quiesce", "redial"):
         steps += end + [{"op": "quiesce"}, {"op": "redial", "n": "A", "expect": True}]
     if real and real[-1]["a"] == "quiesce":
@@ -261,6 +261,153 @@ def scenarios(ctx, gen):
     return out, skipped
 
 
+# ------------------------------------------------------------------ unit level: the exits of the real connection task
+
+UNIT_EXITS = ("idle", "no-permit", "remote-close", "force-close", "opened-report-to-dead-protocol-inbound",
+              "opened-report-to-dead-protocol-outbound", "open-failure-report-to-dead-protocol-refused",
+              "open-failure-report-to-dead-protocol-timeout")
+
+
+def generate_unit(ctx, n):
+    """schedules of the connection-task part of ConnLifeNetMC: one connection, all three protocols, up to 2 substreams"""
+    consts = dict(BASE, Sim=False, MaxCid=1, MaxStim=5, MaxSub=2, Cap=2)
+    cfg = write_cfg(ctx, "genu.cfg", consts, ["SPECIFICATION Spec", "ACTION_CONSTRAINT Emit", "CHECK_DEADLOCK FALSE"])
+    behs, st = tlc_generate(ctx, "ConnLifeNetMC.tla", cfg, timeout=600, simulate={"num": n, "depth": 70})
+    seqs = sorted({json.dumps(b["stims"]) for b in behs if b["stims"]})
+    keep = [s for i, s in enumerate(seqs) if not (i + 1 < len(seqs) and seqs[i + 1].startswith(s[:-1] + ","))]
+    st["schedules"] = len(keep)
+    return [json.loads(s) for s in keep], {k: st[k] for k in st if k != "out"}
+
+
+def unit_round(exit_, pending, dropped):
+    """steps of one round of the connection harness (protocols q1..q3 = index 0..2)"""
+    run = lambda ms=30, **k: dict({"op": "run", "ms": ms}, **k)
+    st = []
+    if dropped:
+        st.append({"op": "drop", "q": 1})
+    if pending == "inbound":            # an inbound substream whose negotiation never finishes (holds a permit until the timeout)
+        st += [{"op": "ropen", "q": 0, "stall": True}, run()]
+    elif pending == "outbound":         # an outbound open the remote never answers
+        st += [{"op": "remote", "supported": [0, 1, 2], "stall": True}, {"op": "open", "q": 0}, run(), {"op": "remote", "supported": [0, 1, 2], "stall": False}]
+    if exit_ == "idle":
+        st += [{"op": "release", "q": "all"}]
+    elif exit_ == "no-permit":          # every handle released and an inbound substream already at the socket at the next poll
+        st += [{"op": "release", "q": "all"}, {"op": "ropen", "q": 0, "stall": False}, {"op": "sleep", "ms": 30}]
+    elif exit_ == "remote-close":
+        st += [{"op": "rclose"}]
+    elif exit_ == "force-close":
+        st += [{"op": "fc", "q": 0}]
+    elif exit_ == "opened-report-to-dead-protocol-inbound":
+        st += [{"op": "drop", "q": 2}, {"op": "ropen", "q": 2, "stall": False}, run(150), {"op": "rclose"}]
+    elif exit_ == "opened-report-to-dead-protocol-outbound":
+        st += [{"op": "open", "q": 2}, {"op": "drop", "q": 2}, run(150), {"op": "rclose"}]
+    elif exit_ == "open-failure-report-to-dead-protocol-refused":
+        st += [{"op": "remote", "supported": [0, 1], "stall": False}, {"op": "open", "q": 2}, {"op": "drop", "q": 2}, run(150), {"op": "rclose"}]
+    elif exit_ == "open-failure-report-to-dead-protocol-timeout":
+        st += [{"op": "remote", "supported": [0, 1, 2], "stall": True}, {"op": "open", "q": 2}, {"op": "drop", "q": 2}, run(500), {"op": "rclose"}]
+    st.append({"op": "finish"})
+    return st
+
+
+def unit_from_model(stims, eager):
+    """a ConnLifeNetMC schedule restricted to its first connection -> connection-harness steps; `eager`: the task is
+    polled after every stimulus, otherwise only where the model recorded an outcome and at the end (so that e.g. released
+    handles and an inbound substream are both ready at the first poll)"""
+    qi = {"q1": 0, "q2": 1, "q3": 2}
+    st, seen_connect = [], False
+    for i, s in enumerate(stims):
+        a = s["a"]
+        if a in ("connect", "connect2"):
+            if seen_connect:
+                break
+            seen_connect = True
+            continue
+        if not seen_connect:
+            if a == "drop":
+                st.append({"op": "drop", "q": qi[s["q"]]})
+            continue
+        if a == "open":
+            out = next((x for x in stims[i + 1:] if x["a"] == "outcome" and x["q"] == s["q"] and x["dir"] == "out"), None)
+            sup = [0, 1, 2] if out is None or out["ok"] else [q for q in (0, 1, 2) if q != qi[s["q"]]]
+            st += [{"op": "remote", "supported": sup, "stall": False}, {"op": "open", "q": qi[s["q"]]}]
+        elif a == "rsub":
+            out = next((x for x in stims[i + 1:] if x["a"] == "outcome" and x["q"] == s["q"] and x["dir"] == "in"), None)
+            st += [{"op": "ropen", "q": qi[s["q"]], "stall": out is not None and not out["ok"]}, {"op": "sleep", "ms": 20}]
+        elif a == "drop":
+            st.append({"op": "drop", "q": qi[s["q"]]})
+        elif a == "fc":
+            st.append({"op": "fc", "q": qi[s["q"]]})
+        elif a == "idle":
+            st.append({"op": "release", "q": "all"})
+        elif a == "cut":
+            st.append({"op": "rclose"})
+        elif a == "outcome":
+            st.append({"op": "run", "ms": 120 if s["ok"] else 450})
+            continue
+        elif a in ("quiesce", "redial"):
+            break
+        else:
+            continue
+        if eager:
+            st.append({"op": "run", "ms": 20})
+    if not seen_connect:
+        return None
+    if not any(x["op"] in ("rclose", "fc") or (x["op"] == "release") for x in st):
+        st.append({"op": "rclose"})
+    st.append({"op": "finish"})
+    return st
+
+
+def unit_part(ctx, gen):
+    """every exit x {inbound substream pending, outbound open pending, nothing pending} x {all protocols alive, one dropped},
+    16+ rounds each, plus the TLC schedules (lazy and eager polling), on the real TcpConnection::start()"""
+    rnd = random.Random(ctx.seed + 7)
+    rounds = []
+    reps = 16 if ctx.quick() else 64
+    for ex in UNIT_EXITS:
+        for pending in ("none", "inbound", "outbound"):
+            for dropped in (False, True):
+                for r in range(reps):
+                    rounds.append({"name": "unit-%s-%s-%s" % (ex, pending, "dropped" if dropped else "alive"), "exit": ex, "seed": rnd.randrange(1 << 30),
+                                   "inbox": 16, "steps": unit_round(ex, pending, dropped)})
+    # a full inbox while the connection ends: the closing sequence blocks on it and completes once it is read again
+    for ex in ("idle", "remote-close", "force-close", "no-permit"):
+        for r in range(reps):
+            st = unit_round(ex, "none", False)
+            st = [{"op": "fill", "q": 1}] + st
+            rounds.append({"name": "unit-%s-full-inbox" % ex, "exit": ex, "seed": rnd.randrange(1 << 30), "inbox": 4, "steps": st})
+    nmodel = 0
+    for i, stims in enumerate(gen):
+        for eager in (False, True):
+            st = unit_from_model(stims, eager)
+            if st and len(st) > 2:
+                nmodel += 1
+                rounds.append({"name": "unit-tlc-%d-%s" % (i, "eager" if eager else "lazy"), "exit": "tlc", "seed": rnd.randrange(1 << 30), "inbox": 16, "steps": st, "stims": stims})
+    write_jsonl(ctx.path("unit_sc.jsonl"), rounds)
+    summ, _ = harness(ctx, "connunit", ["--scenarios", ctx.path("unit_sc.jsonl"), "--out", ctx.path("unit.ndjson"), "--par", 32, "--threads", 8], timeout=1800)
+    log("UNIT: %s" % summ)
+    if summ["rounds"] < 0.9 * len(rounds):
+        raise ToolError("too many connection-harness rounds could not be set up: %s" % summ)
+    lines = read_lines(ctx.path("unit.ndjson"))
+    nseg, nev, rejects = validate_all(ctx, "ConnLifeNetTrace.tla", "ConnLifeNetTrace.cfg", lines, tag="u")
+    viol = []
+    for r in rejects:
+        seg, idx = r
+        if r.reason == "unconsumed":
+            raise ToolError("unit trace line could not be consumed: %s" % seg[idx - 1][:300])
+        head = json.loads(seg[0])
+        evs = [json.loads(x) for x in seg[1:idx]]
+        bad = evs[-1]
+        twice = bad["e"] in ("p_closed", "app_closed") and any(e["e"] == bad["e"] and e.get("q") == bad.get("q") for e in evs[:-1])
+        what = "closed-reported-twice" if twice else r.reason.replace(" ", "-").replace(":", "")
+        sig = "%s@%s" % (what, head.get("exit", "?"))
+        viol.append({"sig": sig, "what": "%s (real TcpConnection::start(), round %s) at %s" % (r.reason, head.get("sc"), seg[idx - 1][:300]),
+                     "replay_obj": {"property": "C07", "level": "unit", "reason": r.reason, "signature": sig,
+                                    "round": next((x for x in rounds if x["name"] == head.get("sc") and x["seed"] == head.get("seed")), None),
+                                    "segment": [json.loads(x) for x in seg]}})
+    return {"executions_validated": nseg, "events_validated": nev, "harness": summ, "rounds_from_model": nmodel}, viol
+
+
 def classify(seg, idx, reason):
     """stable signature of a rejected execution: the broken rule plus the specific history that leads to it"""
     evs = [json.loads(x) for x in seg[:idx]]
@@ -347,6 +494,17 @@ def check(ctx):
     pv, pcov = ordering_probe(ctx)
     violations += pv
     cov["ordering_probe"] = pcov
+    # unit level: every exit of the real connection task (TcpConnection::start()) on a real negotiated loopback
+    # connection with driver-owned protocol inboxes / handles and a scripted remote; same monitor
+    ugen, ustats = generate_unit(ctx, 60 if ctx.quick() else 600)
+    cargo_build(ctx, ["connunit"])
+    ucov, uviol = unit_part(ctx, ugen)
+    ucov["generation"] = ustats
+    violations += uviol
+    cov["unit_level"] = ucov
+    cov["traces_validated_against_impl"] += ucov["executions_validated"]
+    cov["events_validated"] += ucov["events_validated"]
+    cov["by_transport"]["unit(tcp connection task)"] = {"executions_validated": ucov["executions_validated"], "events_validated": ucov["events_validated"]}
     return conclude(ctx, "model_checking", cov, violations, ASSUME + [
         "the order 'protocols before the manager' is judged by the blocked-call probe: one protocol's inbox is filled so that "
         "report_connection_closed suspends on it; while it is suspended the manager's channel must be empty (unit-level, "
@@ -434,6 +592,18 @@ def replay(ctx, path):
         _, _, rej = validate_all(ctx, "SvcLifeTrace.tla", "SvcLifeTrace.cfg", seg, mode="prop")
         log("replay (recorded ordering-probe history): %s" % ("rejected: %s" % rej[0].reason if rej else "accepted"))
         return 1 if rej else 0
+    if obj.get("level") == "unit":
+        _, _, rej = validate_all(ctx, "ConnLifeNetTrace.tla", "ConnLifeNetTrace.cfg", seg)
+        log("replay recorded unit-level segment: %s" % ("; ".join("line %d: %s" % (r[1], r.reason) for r in rej) if rej else "accepted"))
+        rc = 1 if rej else 0
+        if obj.get("round"):
+            cargo_build(ctx, ["connunit"])
+            write_jsonl(ctx.path("ru.jsonl"), [dict(obj["round"], seed=i) for i in range(32)])
+            summ, _ = harness(ctx, "connunit", ["--scenarios", ctx.path("ru.jsonl"), "--out", ctx.path("ru.ndjson")])
+            _, _, rej2 = validate_all(ctx, "ConnLifeNetTrace.tla", "ConnLifeNetTrace.cfg", read_lines(ctx.path("ru.ndjson")), tag="r")
+            log("replay on fresh connections: %d of %d rounds rejected %s" % (len(rej2), summ["rounds"], sorted({r.reason for r in rej2})))
+            rc = 1 if rej2 else rc
+        return rc
     _, _, rej = validate_all(ctx, "ConnLifeNetTrace.tla", "ConnLifeNetTrace.cfg", seg)
     log("replay recorded segment: %s" % ("; ".join("line %d: %s" % (r[1], r.reason) for r in rej) if rej else "accepted"))
     rc = 1 if rej else 0
@@ -464,6 +634,7 @@ def selftest(ctx):
         ("mgr-first", dict(small, Mutant="mgr-first"), "", "ProtocolsBeforeManager"),
         ("stop-on-proto-error", dict(small, Mutant="stop-on-proto-error"), "", "QuiesceOK"),
         ("close-any", dict(small, Mutant="close-any"), "", "MonOK"),
+        ("no-permit-continues", dict(small, Mutant="no-permit-continues"), "", "ClosedOnceRaw"),
     ]:
         lines = list(MC_LINES)
         if inv:
